@@ -262,3 +262,43 @@ def check_revision_lock_scope(ctx: Ctx, rule: str) -> None:
     ctx.ob(rule, 'orchestrator: the revision condition is held continuously from waking up through adjust_tasks and across iterations -- a revision '
            'notified while tasks are being adjusted is not lost (else a removed namespace/CRD keeps its watcher, an added one gets none)', ok,
            loc=f.loc(adj[0].stmt) if adj else f.loc(), construct=construct(f, 'atomic:revised lock scope'))
+
+
+def check_activity_accumulates(ctx: Ctx, rule: str) -> None:
+    """run_activity: failures of EVERY cycle decide the activity's verdict (outcomes are accumulated, not overwritten by the last cycle)."""
+    repo = ctx.repo
+    f = repo.fn('activities.run_activity')
+    ctx.analysed(f)
+    loops = [n for n in walk_no_defs(f.node) if isinstance(n, ast.While)]
+    raises = [n for n in walk_no_defs(f.node) if isinstance(n, ast.Raise)]
+    ctx.require_sites(rule, 'run_activity: retry loop', len(loops), 1, f.loc())
+    ctx.require_sites(rule, 'run_activity: failure escalation (raise)', len(raises), 1, f.loc())
+    if not loops:
+        return
+    lp = loops[0]
+    execs = [c for c in calls_in(lp) if is_call_to(repo, f, c, 'execution.execute_handlers_once')]
+    # the collection whose exceptions decide the verdict: the one iterated (`.values()`/`.items()`) after the loop
+    after = False
+    examined = set()
+    for s in f.node.body:
+        if s is lp:
+            after = True
+            continue
+        if after:
+            for n in walk_no_defs(s):
+                if isinstance(n, ast.Call) and isinstance(n.func, ast.Attribute) and n.func.attr in ('values', 'items') and isinstance(n.func.value, ast.Name):
+                    examined.add(n.func.value.id)
+    ctx.ob(rule, 'run_activity: after the retry loop one collection of outcomes is examined for failures', len(examined) == 1, loc=f.loc(),
+           construct=construct(f, 'flow:examined outcomes'), detail=str(sorted(examined)))
+    for x in examined:
+        plain = [n for s in lp.body for n in walk_no_defs(s) if isinstance(n, (ast.Assign, ast.AnnAssign))
+                 and any(isinstance(t, ast.Name) and t.id == x for t in (n.targets if isinstance(n, ast.Assign) else [n.target]))]
+        accum = [n for s in lp.body for n in walk_no_defs(s) if (isinstance(n, ast.AugAssign) and isinstance(n.op, ast.BitOr) and dotted(n.target) == x)
+                 or (isinstance(n, ast.Call) and method_call(n, 'update') is not None and dotted(method_call(n, 'update')) == x)]
+        ctx.ob(rule, f'run_activity: `{x}` accumulates the outcomes of every cycle (a failure recorded in an earlier cycle still fails the activity: '
+               'a failed startup handler aborts the operator even if other handlers needed more cycles)', bool(accum) and not plain and bool(execs),
+               loc=f.loc(plain[0]) if plain else f.loc(lp), construct=construct(f, 'flow:outcomes accumulate'),
+               detail='; '.join(norm(n, 80) for n in plain))
+    # the state merged with each cycle's outcomes drives the loop
+    merges = [c for c in calls_in(lp) if method_call(c, 'with_outcomes') is not None]
+    ctx.ob(rule, 'run_activity: each cycle\'s outcomes are merged into the state that ends the loop', bool(merges), loc=f.loc(lp), construct=construct(f, 'flow:with_outcomes'))
